@@ -74,6 +74,10 @@ func init() {
 	Checks["C07"] = &Check{Level: "exploration", Run: CheckC07, QuickBudget: 240, ThoroughBudget: 1500}
 }
 
+func init() {
+	Checks["C06"] = &Check{Level: "exploration", Run: CheckC06, QuickBudget: 240, ThoroughBudget: 1500}
+}
+
 // kReplay re-executes an operation-history counterexample of the K space.
 func kReplay(prop string) func(v *Viol) []string {
 	return func(v *Viol) []string {
